@@ -55,6 +55,10 @@ func (w *World) applySweeps() {
 			}
 			files[f] = true
 		}
+		// `wellformed`: the functions work on a tree of interface values (an AST)
+		// that is assumed to have no nil children; stated as an assumption
+		wellFormed := files["wellformed"]
+		delete(files, "wellformed")
 		for _, k := range keys {
 			fi := w.funcs[k]
 			if fi.Pkg.PkgPath != sw.Pkg || fi.Decl.Body == nil {
@@ -82,6 +86,9 @@ func (w *World) applySweeps() {
 				fc.Props = append(fc.Props, sw.Prop)
 			}
 			fc.Safety = true
+			if wellFormed {
+				fc.WellFormed = true
+			}
 		}
 	}
 	for _, ti := range w.cs.TypeInvs {
